@@ -118,14 +118,18 @@ class OperationsManager(OperationsManagerProtocol):  # inheriting from protocol 
                 msg_types.InvocationState.CANCELLED,
                 msg_types.InvocationState.CANCELLED_MANUALLY,
             ):
-                # do not wait for an OperationInvokedReport
+                # do not wait for an OperationInvokedReport, but keep the parts that arrived before the response
                 operation_result = OperationResult(
                     abstract_set_response.InvocationInfo,
                     None,
                     None,
                     None,
                     abstract_set_response,
-                    [],
+                    [
+                        part
+                        for part in self._last_operation_invoked_reports
+                        if part.InvocationInfo.TransactionId == invocation_info.TransactionId
+                    ],
                 )
                 future_object.set_result(operation_result)
                 return future_object
